@@ -74,6 +74,13 @@ func hintOfObj(v any) string {
 	return ""
 }
 
+func hintOfAny(v any) string {
+	if h, ok := v.(hint.Hinter); ok {
+		return h.Hint().String()
+	}
+	return ""
+}
+
 func main() {
 	o := vh.ParseFlags()
 	res := vh.NewResult("random valid instances of every type registered in launch.Hinters / SupportedProposalOperationFactHinters " +
@@ -159,6 +166,61 @@ func main() {
 		}
 		if round < 3 && len(res.Samples) < 6 && len(b) < 700 {
 			res.Sample(map[string]any{"kind": ob.Kind, "json": string(b)})
+		}
+
+		// ---- the same message decoded again and again by the same long-lived encoder (hint lookup caches)
+		for i := 0; i < 2; i++ {
+			dn, err := w.Decode(ob.V, b)
+			if err != nil {
+				fail("decode-not-repeatable", fmt.Sprintf("decode #%d failed: %v", i+2, err), b)
+				break
+			}
+			bn, _ := w.Enc.Marshal(dn)
+			if !bytes.Equal(gen.Canonical(bn), gen.Canonical(b2)) || hintOfAny(dn) != hintOfAny(d) {
+				fail("decode-not-repeatable", fmt.Sprintf("decode #%d differs from decode #1: %.300s", i+2, string(bn)), b)
+				break
+			}
+		}
+		// ---- the same object under a compatible, different hint version (top level / every nested hint):
+		// the decoded object must keep the hint of the message, on every one of 3 consecutive decodes
+		if gen.HintOf(b) != "" {
+			if root0, err := gen.ParseJSON(b); err == nil {
+				for vi, deep := range []bool{false, true} {
+					mv := gen.BumpHints(root0, deep, true)
+					mb := gen.RenderJSON(mv)
+					wantCanon := gen.Canonical(mb)
+					firstValid := e1 == nil // top-level variant: as valid as the original; deep variant: nested hints can be
+					// hashed content (limiter rule), so only consistency over the repeated decodes is required
+					res.Dist(fmt.Sprintf("hint-version-variant:%d", vi))
+					for i := 0; i < 3; i++ {
+						dv, err := w.Enc.Decode(mb)
+						if err != nil {
+							fail("variant-decode-failed", fmt.Sprintf("hint version variant (deep=%v) decode #%d: %v", deep, i+1, err), mb)
+							break
+						}
+						if reflect.TypeOf(dv) != reflect.TypeOf(ob.V) {
+							fail("variant-type-changed", fmt.Sprintf("%T -> %T", ob.V, dv), mb)
+							break
+						}
+						bv, err := w.Enc.Marshal(dv)
+						if err != nil || !bytes.Equal(gen.Canonical(bv), wantCanon) {
+							fail("variant-reencode-differs", fmt.Sprintf("decode #%d (deep=%v) re-encoded: %.300s", i+1, deep, string(bv)), mb)
+							break
+						}
+						if p, ok := dv.(*isaac.Params); ok {
+							_ = p.SetNetworkID(w.NetworkID)
+						}
+						ev, _ := gen.IsValid(dv, nid)
+						if deep && i == 0 {
+							firstValid = ev == nil
+						}
+						if (ev == nil) != firstValid {
+							fail("variant-validity-changed", fmt.Sprintf("decode #%d (deep=%v): %v", i+1, deep, ev), mb)
+							break
+						}
+					}
+				}
+			}
 		}
 
 		// ---- correspondence case: keys of the real JSON vs. the extracted tables
